@@ -197,7 +197,7 @@ def _open_close_typestate(prog, r, f, status_var, success_keeps):
                     return [(res, closed, "S", ann, reg), (res, closed, "F", ann, reg)]
         return [(res, closed, status, ann, reg)]
 
-    def refine(st, cond, pol):
+    def refine(st, cond, pol, blk=None):
         res, closed, status, ann, reg = st
         if status_var is not None and status in ("S", "F"):
             ns = refine_sf(status, cond, pol, status_var)
